@@ -9,6 +9,7 @@
 #include <pika/modules/resource_partitioner.hpp>
 #include <pika/semaphore.hpp>
 #include <pika/thread.hpp>
+#include <pika/execution_base/this_thread.hpp>
 #include <pika/threading_base/thread_pool_base.hpp>
 
 #include "vlog.hpp"
@@ -226,6 +227,9 @@ int main(int argc, char** argv)
                 int prio = R.chance(1, 5) ? 1 : 0;
                 int phases = 1 + (int) R.below(4);
                 bool blocking = R.chance(1, 2);
+                // between phases a non-blocking task either yields once or backs off the way contended spinlocks,
+                // barriers and yield_while do: from the 16th round on with the "pending_boost" state
+                int boost = (!blocking && R.chance(1, 2)) ? 17 + (int) R.below(30) : 0;
                 if (blocking) nblocks[i] = phases - 1;
                 auto s1 = ex::with_hint(sch[p],
                     pika::execution::thread_schedule_hint(
@@ -236,7 +240,7 @@ int main(int argc, char** argv)
                 who sub = me();
                 auto* sem = sems[i].get();
                 auto* ab = about[i].get();
-                ex::execute(s2, [&, i, p, hint, prio, phases, sub, blocking, sem, ab] {
+                ex::execute(s2, [&, i, p, hint, prio, phases, sub, blocking, sem, ab, boost] {
                     for (int ph = 0; ph < phases; ++ph)
                     {
                         log_run(p, hint, prio, &sub, 300 + i + 1000 * ph);
@@ -246,6 +250,11 @@ int main(int argc, char** argv)
                             {
                                 ++*ab;
                                 sem->acquire();
+                            }
+                            else if (boost > 0)
+                            {
+                                int left = boost;
+                                pika::util::yield_while([&left] { return --left > 0; }, "place_harness");
                             }
                             else pika::this_thread::yield();
                         }
